@@ -15,7 +15,7 @@ pub struct MinResult {
 pub fn minimise(
     plan: &Plan,
     first: Violation,
-    mut oracle: impl FnMut(&Plan) -> Option<Violation>,
+    mut oracle: impl FnMut(&Plan) -> Vec<Violation>,
     budget: Duration,
     max_exec: u64,
 ) -> MinResult {
@@ -30,10 +30,7 @@ pub fn minimise(
             return None;
         }
         *executions += 1;
-        match oracle(cand) {
-            Some(v) if v.inv == target => Some(v),
-            _ => None,
-        }
+        oracle(cand).into_iter().find(|v| v.inv == target)
     };
 
     // 0. Truncate after the failing operation.
